@@ -141,7 +141,7 @@ theorem resetStepWs_no_invention {root sp} (h : RInv root sp) (k : Nat) (soft : 
   rw [hsnap]
   have hi : (resetStepWs k soft re hum sp.st).initial = (enum1 sp.st.work).filterMap (fun p =>
       if (undoN k sp.st).head.contains p.2 then
-        (if re.contains p.2 then (boundedAuthor k hum sp.st p.2).map (fun s => (p.1, s)) else none)
+        (if re.contains p.2 && resetConsiders k sp.st then (boundedAuthor k hum sp.st p.2).map (fun s => (p.1, s)) else none)
       else (mergedAuthorWs hum sp.st p.2).map (fun s => (p.1, s))) := rfl
   rw [hi] at hm
   simp only [List.mem_filterMap] at hm
